@@ -219,9 +219,10 @@ Proof. vm_compute. split; reflexivity. Qed.
    command.  [HistDefs.build] runs TWO: [dirty_now] judges [out] by a fresh scan, in which [gen]
    is dirty again because of [always], and a dirty input makes [out] dirty.  So below an
    always-dirty statement the model re-runs what ninja prunes (a superset of commands; the
-   contents agree, C01 is not affected, C02 excludes these graphs).  The check compares such
-   builds with a relaxed rule (engine's commands a subset of the model's, the surplus below an
-   always-dirty statement).  nodes: 0 src  1 always  2 gen  3 out *)
+   contents agree, C01 is not affected, C02 excludes these graphs).  Engine/HistFaithful.v has the
+   loop that follows Plan::CleanNode ([build_f]); the check runs THAT loop against ninja, with
+   exact rules, and counts the builds in which [build] and [build_f] differ.
+   nodes: 0 src  1 always  2 gen  3 out *)
 Module ExAlwaysRestat.
 Definition g : graph :=
   mkGraph 3
